@@ -217,6 +217,14 @@ class F:
             for i in range(8):
                 groups.append(b"\x00\x00" if pat & (1 << i) else struct.pack("!H", rng.choice((1, 0xFFFF, 0x0A00, rng.randrange(1, 65536)))))
             return b"".join(groups)
+        if r < 0.72:
+            # look-alikes of the embedded-IPv4 forms (::a.b.c.d, ::ffff:a.b.c.d): a leading zero run of 1..6 groups, ffff or 0 in
+            # group 5, small values elsewhere -- only six leading zero groups (or five and ffff) are an embedded IPv4 address
+            lead = rng.randint(1, 6)
+            groups = [0] * lead + [rng.choice((0, 1, 2, 0xFFFF)) for _ in range(8 - lead)]
+            if rng.random() < 0.7:
+                groups[5] = 0xFFFF
+            return b"".join(struct.pack("!H", g) for g in groups)
         return bytes(rng.randrange(256) for _ in range(16))
 
     def types(self, maxn=12):
